@@ -5,6 +5,8 @@ import Driver.C03
 import Driver.C18
 import Driver.C20
 import Driver.C07
+import Driver.C15
+import Driver.C10
 /-!
 # Line-protocol driver
 
@@ -22,6 +24,8 @@ def dispatch (inp obs : List String) : Verdict :=
   | some "C18" | some "C18L" => Driver.C18.run inp obs
   | some "C20" => Driver.C20.run inp obs
   | some "C07" => Driver.C07.run inp obs
+  | some "C15" => Driver.C15.run inp obs
+  | some "C10" => Driver.C10.run inp obs
   | _ => { agree := false, model := "unknown-model" }
 
 partial def loop (h : IO.FS.Stream) (out : IO.FS.Stream) : IO Unit := do
